@@ -283,4 +283,156 @@ theorem scopeExit2_spec (ord : DropOrder) (rest fields : List Field) (st : LifeS
     · rw [if_neg hp]
       rcases x1.2 with h | ⟨h, _⟩ <;> omega
 
+/-! ### how many panics verification raises on the way out (two-phase release) -/
+
+theorem dropVerifs_nil (cp : Bool) (e : ExitState) : dropVerifs cp e [] = e := by
+  simp [dropVerifs]
+
+/-- with no expectation pending, the field phase raises nothing and keeps the unwinding flag -/
+theorem exitSteps_quiet (ord : DropOrder) (fs : List Field) :
+    ∀ e : ExitState, e.verifs = [] →
+      (exitSteps ord true e fs).newPanics = e.newPanics ∧ (exitSteps ord true e fs).verifs = [] := by
+  induction fs with
+  | nil => intro e h; simp [exitSteps, h]
+  | cons f fs ih =>
+    intro e h
+    obtain ⟨ems, epk, enp, eab, elh, evf⟩ := e
+    simp only at h
+    subst h
+    cases eab with
+    | true => simp [exitSteps]
+    | false =>
+      cases f <;> simp only [exitSteps, Bool.false_eq_true, if_false, dropVerifs_nil] <;> exact ih _ rfl
+
+/-- field phase from a state that is not unwinding: the first `verifiers` step reports once iff
+    some expectation is unmet; nothing else is raised -/
+theorem exitSteps_newPanics (ord : DropOrder) (fs : List Field) :
+    ∀ e : ExitState, e.abort = false → e.panicking = false →
+      (exitSteps ord true e fs).newPanics =
+        e.newPanics + (if fs.contains Field.verifiers && anyMismatch e.verifs then 1 else 0) := by
+  induction fs with
+  | nil => intro e _ _; simp [exitSteps]
+  | cons f fs ih =>
+    intro e ha hp
+    obtain ⟨ems, epk, enp, eab, elh, evf⟩ := e
+    simp only at ha hp
+    subst ha; subst hp
+    cases f with
+    | verifiers =>
+      simp only [exitSteps, Bool.false_eq_true, if_false]
+      obtain ⟨_, _, _, _, v5, _⟩ := dropVerifs_spec evf { ms := ems, panicking := false, newPanics := enp, abort := false, lockHeld := elh, verifs := evf } rfl
+      simp only at v5
+      generalize dropVerifs true { ms := ems, panicking := false, newPanics := enp, abort := false, lockHeld := elh, verifs := evf } evf = D at *
+      rw [(exitSteps_quiet ord fs { D with verifs := [] } rfl).1]
+      show D.newPanics = _
+      rw [v5]
+      simp [List.contains_cons]
+    | guards =>
+      simp only [exitSteps, Bool.false_eq_true, if_false]
+      rw [ih _ rfl rfl]; simp [List.contains_cons]
+    | lock =>
+      simp only [exitSteps, Bool.false_eq_true, if_false]
+      rw [ih _ rfl rfl]; simp [List.contains_cons]
+    | other =>
+      simp only [exitSteps, Bool.false_eq_true, if_false]
+      rw [ih _ rfl rfl]; simp [List.contains_cons]
+    | unknown =>
+      simp only [exitSteps, Bool.false_eq_true, if_false]
+      rw [ih _ rfl rfl]; simp [List.contains_cons]
+
+/-- the `Drop::drop` body from a state that is not unwinding: either it contains no `verifiers`
+    step and leaves the expectations pending and the state quiet, or it has consumed them,
+    having reported once iff some expectation is unmet -/
+theorem bodySteps_newPanics (ord : DropOrder) (fs : List Field) :
+    ∀ e : ExitState, e.abort = false → e.panicking = false →
+      let r := bodySteps ord true e fs
+      r.abort = false ∧
+      (if fs.contains Field.verifiers then
+        r.verifs = [] ∧ r.newPanics = e.newPanics + (if anyMismatch e.verifs then 1 else 0)
+       else r.verifs = e.verifs ∧ r.newPanics = e.newPanics ∧ r.panicking = false) := by
+  induction fs with
+  | nil => intro e ha hp; simp [bodySteps, ha, hp]
+  | cons f fs ih =>
+    intro e ha hp
+    obtain ⟨ems, epk, enp, eab, elh, evf⟩ := e
+    simp only at ha hp
+    subst ha; subst hp
+    cases f with
+    | verifiers =>
+      simp only [bodySteps, Bool.false_eq_true, if_false]
+      obtain ⟨v1, _, _, _, v5, _⟩ := dropVerifs_spec evf { ms := ems, panicking := false, newPanics := enp, abort := false, lockHeld := elh, verifs := evf } rfl
+      simp only at v5
+      generalize dropVerifs true { ms := ems, panicking := false, newPanics := enp, abort := false, lockHeld := elh, verifs := evf } evf = D at *
+      have hD : D.newPanics = enp + (if anyMismatch evf then 1 else 0) := by rw [v5]; simp
+      simp only [List.contains_cons, beq_self_eq_true, Bool.true_or, if_true]
+      by_cases hgt : D.newPanics > enp
+      · rw [if_pos hgt]
+        exact ⟨v1, rfl, hD⟩
+      · rw [if_neg hgt]
+        -- nothing was raised: no expectation is unmet, the rest of the body runs with none pending
+        have hno : anyMismatch evf = false := by
+          cases h : anyMismatch evf with
+          | false => rfl
+          | true => rw [hD, h] at hgt; simp at hgt
+        have hq : ∀ fs' : List Field, ∀ e' : ExitState, e'.verifs = [] → e'.abort = false →
+            (bodySteps ord true e' fs').abort = false ∧ (bodySteps ord true e' fs').verifs = [] ∧
+            (bodySteps ord true e' fs').newPanics = e'.newPanics := by
+          intro fs'
+          induction fs' with
+          | nil => intro e' h1 h2; simp [bodySteps, h1, h2]
+          | cons g gs ihg =>
+            intro e' h1 h2
+            obtain ⟨a1, a2, a3, a4, a5, a6⟩ := e'
+            simp only at h1 h2
+            subst h1; subst h2
+            cases g <;> simp only [bodySteps, Bool.false_eq_true, if_false, dropVerifs_nil, Nat.lt_irrefl, gt_iff_lt] <;>
+              exact ihg _ rfl rfl
+        obtain ⟨q1, q2, q3⟩ := hq fs { D with verifs := [] } rfl v1
+        refine ⟨q1, q2, ?_⟩
+        rw [q3]
+        show D.newPanics = _
+        rw [hD, hno]
+    | guards =>
+      simp only [bodySteps, Bool.false_eq_true, if_false]
+      have := ih { ms := restoreAll ord ems, panicking := false, newPanics := enp, abort := false, lockHeld := elh, verifs := evf } rfl rfl
+      simpa [List.contains_cons] using this
+    | lock =>
+      simp only [bodySteps, Bool.false_eq_true, if_false]
+      have := ih { ms := ems, panicking := false, newPanics := enp, abort := false, lockHeld := false, verifs := evf } rfl rfl
+      simpa [List.contains_cons] using this
+    | other =>
+      simp only [bodySteps, Bool.false_eq_true, if_false]
+      have := ih { ms := ems, panicking := false, newPanics := enp, abort := false, lockHeld := elh, verifs := evf } rfl rfl
+      simpa [List.contains_cons] using this
+    | unknown =>
+      simp only [bodySteps, Bool.false_eq_true, if_false]
+      have := ih { ms := ems, panicking := false, newPanics := enp, abort := false, lockHeld := elh, verifs := evf } rfl rfl
+      simpa [List.contains_cons] using this
+
+/-- **Verification at a normal scope exit, two-phase release**: wherever the verifiers are let
+    go — in the `Drop::drop` body or by the field glue — the release raises exactly one panic if
+    some expectation is unmet and none otherwise, provided they are let go somewhere. -/
+theorem scopeExit2_newPanics (ord : DropOrder) (body fields : List Field) (st : LifeState)
+    (hp : st.panicked = false) (hv : (body ++ fields).contains Field.verifiers = true) :
+    (scopeExit2 ord true body fields st).newPanics = if anyMismatch st.verifs then 1 else 0 := by
+  unfold scopeExit2
+  rw [hp]
+  have hb := bodySteps_newPanics ord body { ms := st.ms, panicking := false, newPanics := 0, abort := false, lockHeld := true, verifs := st.verifs } rfl rfl
+  simp only at hb
+  generalize bodySteps ord true { ms := st.ms, panicking := false, newPanics := 0, abort := false, lockHeld := true, verifs := st.verifs } body = B at *
+  obtain ⟨hab, hrest⟩ := hb
+  by_cases hbv : body.contains Field.verifiers = true
+  · rw [if_pos hbv] at hrest
+    rw [(exitSteps_quiet DropOrder.oldestFirst fields B hrest.1).1, hrest.2]
+    simp
+  · rw [if_neg hbv] at hrest
+    obtain ⟨h1, h2, h3⟩ := hrest
+    have hfv : fields.contains Field.verifiers = true := by
+      simp only [List.contains_append, Bool.or_eq_true] at hv
+      rcases hv with h | h
+      · exact absurd h hbv
+      · exact h
+    rw [exitSteps_newPanics DropOrder.oldestFirst fields B hab h3, h2, h1, hfv]
+    simp
+
 end Inj.Panic
